@@ -539,6 +539,10 @@ func propC18(w *World, r *Report) {
 					}
 				}
 			}
+			if !closedBefore {
+				// a rotation helper that is handed the current builder, closes it and only then opens the next file
+				closedBefore = closesParamBeforeOpening(c)
+			}
 			r.Check(closedBefore, "W4", "writer: on file rotation the current file is closed (flushed) before the next one is opened", w.InstrPos(c), "")
 		}
 	}
@@ -875,4 +879,53 @@ func checkBufferedClose(w *World, r *Report) {
 			r.Check(ok, "W4", "Builder.Close closes the underlying writer", w.Pos(bc.Pos()), "")
 		}
 	}
+}
+
+// closesParamBeforeOpening: the call hands a *Builder to a repository function that closes that parameter in a block
+// dominating every call of its own that yields a new *Builder.
+func closesParamBeforeOpening(c *ssa.Call) bool {
+	callee := c.Call.StaticCallee()
+	if callee == nil || len(callee.Blocks) == 0 {
+		return false
+	}
+	isBuilder := func(t types.Type) bool { return typeIs(t, modPath+"/cmd/thermal-writer", "Builder") }
+	var closes []*ssa.Call
+	var opens []*ssa.Call
+	for _, b := range callee.Blocks {
+		for _, in := range b.Instrs {
+			cc, ok := in.(*ssa.Call)
+			if !ok || cc.Call.StaticCallee() == nil {
+				continue
+			}
+			f := cc.Call.StaticCallee()
+			if f.Name() == "Close" && len(cc.Call.Args) == 1 {
+				if p, ok := cc.Call.Args[0].(*ssa.Parameter); ok && isBuilder(p.Type()) {
+					// the parameter must be the builder the caller passes
+					for i, a := range c.Call.Args {
+						if i < len(callee.Params) && callee.Params[i] == p && isBuilder(a.Type()) {
+							closes = append(closes, cc)
+						}
+					}
+				}
+			}
+			if f.Signature.Results().Len() >= 1 && isBuilder(f.Signature.Results().At(0).Type()) {
+				opens = append(opens, cc)
+			}
+		}
+	}
+	if len(closes) == 0 || len(opens) == 0 {
+		return false
+	}
+	for _, o := range opens {
+		ok := false
+		for _, cl := range closes {
+			if cl.Block() == o.Block() && instrIndex(cl) < instrIndex(o) || cl.Block() != o.Block() && cl.Block().Dominates(o.Block()) {
+				ok = true
+			}
+		}
+		if !ok {
+			return false
+		}
+	}
+	return true
 }
